@@ -627,7 +627,8 @@ def real_crash(shape, pos, failAt, kind="exception"):
     nC, bs, coupling, skip = shape
     o, r = load_small({"nCycles": nC, "burnSteps": bs, "startCycle": 0, "startNode": 0, "db": True,
                        "tightCoupling": coupling, "tightCouplingMaxNumIters": 2,
-                       "cyclesSkipTightCouplingInteraction": list(skip)})
+                       # the exempt cycles spelled as a user may: str / float / int entries, all converted by int()
+                       "cyclesSkipTightCouplingInteraction": [(str(c), float(c), int(c))[(k + nC + bs) % 3] for k, c in enumerate(skip)]})
     for i in list(o.interfaces):
         if i.name not in ("main", "database"):
             o.removeInterface(i)
